@@ -4,6 +4,7 @@
 From Coq Require Import List NArith.
 From PT Require Import Model.Base Model.Stack Model.Texpr Model.Sem Model.Aparse Model.Ast Model.Translate Model.PegSpec Model.GenEnv.
 From PT Require Import Proofs.GenWitness Proofs.PegSimBase Proofs.PegSimFwd Proofs.RefineCor Proofs.PegMain.
+From PT Require Import Proofs.BoundaryOps Proofs.Boundary Proofs.RefinePanic Proofs.PegMain2.
 Import ListNotations.
 
 (* Main theorem.  For every grammar [g] (pest_meta's optimized AST) whose WHITESPACE / COMMENT cannot tell the
@@ -40,6 +41,42 @@ Theorem C01_accepts_iff : forall g eoi I pred,
   (exists stk toks, peg_entry (penv_of eoi g I pred) n r = POk pos stk toks).
 Proof. exact typed_accepts_iff_peg. Qed.
 Print Assumptions C01_accepts_iff.
+
+(* The same with every premise about a run stated on the REAL parse path, for what a Rust caller can build: a valid
+   UTF-8 input with its bounds on character boundaries ([good_inp]) and a grammar whose string literals are valid UTF-8
+   ([glits_ok]).  No panic premise is left: under these hypotheses neither run panics (C09). *)
+Theorem C01_typed_is_peg_wf : forall g eoi I pred,
+  ws_ok g = true -> eoi_fresh eoi g = true -> good_inp I -> glits_ok g ->
+  forall r, callable eoi g r = true -> forall n m,
+  peg_entry (penv_of eoi g I pred) n r <> PFuel ->
+  try_parse_partial (env_of eoi g I pred) m r <> Fuel ->
+  match peg_entry (penv_of eoi g I pred) n r with
+  | POk pos stk _ => exists t st', try_parse_partial (env_of eoi g I pred) m r = Ok (pos, t) st' /\ cache (Sem.stk st') = stk
+  | PFail => exists st', try_parse_partial (env_of eoi g I pred) m r = Fail st'
+  | PPanic => False
+  | PFuel => False
+  end.
+Proof. exact typed_is_peg_wf. Qed.
+Print Assumptions C01_typed_is_peg_wf.
+
+Theorem C01_accepts_iff_wf : forall g eoi I pred,
+  ws_ok g = true -> eoi_fresh eoi g = true -> good_inp I -> glits_ok g ->
+  forall r, callable eoi g r = true -> forall n m,
+  peg_entry (penv_of eoi g I pred) n r <> PFuel ->
+  try_parse_partial (env_of eoi g I pred) m r <> Fuel ->
+  forall pos,
+  (exists t st', try_parse_partial (env_of eoi g I pred) m r = Ok (pos, t) st') <->
+  (exists stk toks, peg_entry (penv_of eoi g I pred) n r = POk pos stk toks).
+Proof. exact typed_accepts_iff_peg_wf. Qed.
+Print Assumptions C01_accepts_iff_wf.
+
+Theorem C01_example_wf :
+  ws_ok ex_g = true /\ eoi_fresh 0 ex_g = true /\ good_inp (inp_of_str ex_in1) /\ glits_ok ex_g /\
+  callable 0 ex_g 1 = true /\
+  peg_entry (penv_of 0 ex_g (inp_of_str ex_in1) (fun _ _ => false)) 40 1 <> PFuel /\
+  try_parse_partial (env_of 0 ex_g (inp_of_str ex_in1) (fun _ _ => false)) 40 1 <> Fuel.
+Proof. exact typed_is_peg_wf_example. Qed.
+Print Assumptions C01_example_wf.
 
 (* the forward simulation for every expression in every context (what the main theorem is an instance of) *)
 Theorem C01_simulation : forall g eoi I pred,
